@@ -75,6 +75,22 @@ def check(run):
     return out, st
 
 
+def partial_tweak(rng, opts):
+    """
+    a Meek / Warren configuration given only in part (arithmetic, precision, perhaps guard or omega, never all of them): the rest
+    falls to the rule's defaults, and the claim holds for whatever those turn out to be
+    """
+    o = dict(rule=opts['rule'], arithmetic='guarded', precision=rng.randint(6, 12))
+    k = rng.random()
+    if k < 0.6:
+        o['guard'] = rng.choice([0, 0, 0, 1, 2, 3])
+    elif k < 0.8:
+        o['omega'] = rng.randint(3, 6)
+    if rng.random() < 0.6:
+        o['defeat_batch'] = 'none'
+    return o
+
+
 def tweak(rng, opts):
     "steer the configuration towards rarely taken exclusion branches (zero-vote batches, stable-state exclusions, single defeats)"
     if opts['rule'] == 'wigm' and rng.random() < 0.5:
@@ -94,7 +110,11 @@ def tweak(rng, opts):
 def shard(ctx):
     n_min = 60 if ctx.quick else 400
     for i, rng in ctx.cases(n_min, 10 ** 9):
-        case = stream.make_case(ctx, rng, WEIGHTS, allow_eq=False, meek_rational=True, tweak=tweak)
+        if i % 6 == 1:
+            case = stream.make_case(ctx, rng, dict(G5=4, G5b=1, G1=1, G3=1), rules=['meek', 'warren'], allow_eq=False, tweak=partial_tweak)
+            ctx.count('partially_configured_meek_cases')
+        else:
+            case = stream.make_case(ctx, rng, WEIGHTS, allow_eq=False, meek_rational=True, tweak=tweak)
         run = case.run
         if not stream.usable(ctx, case, partial_ok=False):
             continue
